@@ -183,6 +183,19 @@ def judge_compressed(got, spec, subs, descs, version=33):
     return None
 
 
+def json_text(fj):
+    """the flat JSON as text, written without the library: bytes become text (latin-1), everything ASCII-escaped"""
+    import json
+
+    def conv(x):
+        if isinstance(x, bytes):
+            return x.decode('latin-1')
+        if isinstance(x, (list, tuple)):
+            return [conv(i) for i in x]
+        return x
+    return json.dumps(conv(fj))
+
+
 def encode_body(descs, env):
     from mc.ref import message
 
@@ -206,6 +219,23 @@ def encode_body(descs, env):
                         'viol': ('encode-raises:' + type(e).__name__, 'encoding raised %s: %s' % (type(e).__name__, str(e)[:200]))}
         got = msg.serialized_bytes
         res = {'outcome': S.outcome_class(subs, env['compressed']), 'bytes': b}
+        # the same values handed over as serialised JSON text (character values arrive as str, not bytes), as str and as bytes
+        # (for every message with a character field, and for the default-valued execution of every template)
+        forms = ()
+        if any(m[0] == 'str' for m in subs[0].meta) or not any(c for lab, c in ctx.vector() if lab.startswith(('v.', 'col.'))):
+            text = json_text(fj)
+            forms = (('json-str', text), ('json-bytes', text.encode('ascii')))
+        for form, arg in forms:
+            with contextlib.redirect_stderr(io.StringIO()):
+                try:
+                    got2 = encoder().process(arg, wire_template_data=False).serialized_bytes
+                except Exception as e:
+                    res['viol'] = ('input-form-raises:%s:%s' % (form, type(e).__name__), 'the values given as %s: %s' % (form, str(e)[:160]))
+                    return res
+            if got2 != got:
+                res['viol'] = ('input-form-differs:' + form, 'the same values given as %s encode to %s, as a Python list to %s'
+                               % (form, got2.hex(), got.hex()))
+                return res
         if not env['compressed']:
             if got != b:
                 res['viol'] = ('bytes', 'encoded %s, independently built %s' % (got.hex(), b.hex()))
